@@ -67,7 +67,7 @@ fn lockfree_recycle_in(l1: usize, h1: usize, l2: usize, h2: usize, l3: usize, h3
     assert!(unsafe { stamped(p2, s2, 0x22) }, "a live block lost its contents");
     assert!((p2.as_ptr() as usize) % 8 == 0 && (p3.as_ptr() as usize) % 8 == 0, "block not 8-aligned");
     zcover!(p2 == p1, "freed block was recycled");
-    zcover!(p2 != p1, "freed block was not recycled");
+    zcover!(p2 != p1, "opt: freed block was not recycled (cannot happen when both sizes fall into one class)");
     forget(pool);
 }
 
